@@ -286,9 +286,13 @@ func TestC18(t *testing.T) {
 				res[i] = "unit-level cases run in harness/c18unit"
 			}
 		case "udp":
+			lp.PoolTraceBegin()
 			res = runConnUDP(t, *cur)
+			lp.PoolTraceEnd(fmt.Sprintf("c18 udp %d-ops", len(cur.ops)))
 		case "tcp":
+			lp.PoolTraceBegin()
 			res = runConnTCP(t, *cur)
+			lp.PoolTraceEnd(fmt.Sprintf("c18 tcp %d-ops", len(cur.ops)))
 		}
 		for _, l := range res {
 			fmt.Fprintln(w, l)
